@@ -185,6 +185,12 @@ func genLimit(prop string, r *simrt.SplitMix) *LimitSc {
 		sc.Horizon += 4 * 3 * (2*sc.I + 1)
 	}
 
+	if prop == "C12" && r.Intn(3) == 0 {
+		// C12's bounds are "not later than": every injected stall is granted on top of them
+		sc.Stalls = []int64{1, 2, sc.I/7 + 1, sc.I/2 + 1, sc.I + 1}
+		sc.Horizon += 4 * 3 * (sc.I + 2)
+	}
+
 	if prop == "C04" && r.Intn(12) == 0 {
 		// "forever": Quantity elements, then nothing for centuries. The scenario (pauses,
 		// horizon) stays the one drawn for the small interval; a correct discipline lets one
@@ -466,9 +472,10 @@ func checkLimit(prop string, sc *LimitSc, res *simrt.Result) Verdict {
 
 		if sc.Class == "eager" {
 			for j, s := range sends {
-				if s.t > int64(uint64(j)/q)*iv {
-					v.fail("extra-throttling", "with everything available up-front element #%d left at t=%dns; rate %d per %dns allows it at t=%dns",
-						j+1, s.t, q, iv, int64(uint64(j)/q)*iv)
+				// every stall so far may have delayed everything after it by its length
+				if lat := stalledIn(res, 0, s.t+t0); s.t > int64(uint64(j)/q)*iv+lat {
+					v.fail("extra-throttling", "with everything available up-front element #%d left at t=%dns; rate %d per %dns allows it at t=%dns (plus %dns of injected scheduling latency)",
+						j+1, s.t, q, iv, int64(uint64(j)/q)*iv, lat)
 
 					break
 				}
@@ -508,9 +515,16 @@ func checkLimit(prop string, sc *LimitSc, res *simrt.Result) Verdict {
 			for j, s := range sends {
 				a := max(avail[s.val], 0) // prefilled elements were available at creation
 
-				if b := bound(j, a); s.t > b {
-					v.fail("extra-throttling", "element #%d was available at t=%dns and left at t=%dns; the rate (%d per %dns) and the ready consumer allow t=%dns",
-						j+1, a, s.t, q, iv, b)
+				// a stall can only push element j past its bound if it began after the
+				// previous element had left (earlier ones moved the reference points too)
+				from := int64(0)
+				if j > 0 {
+					from = sends[j-1].t + t0
+				}
+
+				if b, lat := bound(j, a), stalledIn(res, from, s.t+t0); s.t > b+lat {
+					v.fail("extra-throttling", "element #%d was available at t=%dns and left at t=%dns; the rate (%d per %dns) and the ready consumer allow t=%dns (plus %dns of injected scheduling latency)",
+						j+1, a, s.t, q, iv, b, lat)
 
 					break
 				}
@@ -529,7 +543,12 @@ func checkLimit(prop string, sc *LimitSc, res *simrt.Result) Verdict {
 					}
 				}
 
-				if b := bound(len(sends), max(inCloseT, 0)); closeT > b && len(v.Viol) == 0 {
+				from := int64(0)
+				if len(sends) > 0 {
+					from = sends[len(sends)-1].t + t0
+				}
+
+				if b := bound(len(sends), max(inCloseT, 0)) + stalledIn(res, from, closeT+t0); closeT > b && len(v.Viol) == 0 {
 					v.fail("late-close", "input closed at t=%dns after %d elements, output closed at t=%dns; the rate and the ready consumer allow t=%dns", inCloseT, len(sends), closeT, b)
 				}
 			}
